@@ -128,7 +128,19 @@ func (x *Exec) getArr(st *State, name, sortS string) string {
 		return t
 	}
 	init := name + "_0"
-	x.reg.declConst(init, sortS)
+	if _, seen := x.reg.consts[init]; !seen {
+		x.reg.declConst(init, sortS)
+		// the nil map (reference 0) is empty and has no entries
+		if strings.HasPrefix(name, "MD_") {
+			ks := strings.TrimSuffix(strings.TrimPrefix(sortS, "(Array Int (Array "), " Bool))")
+			x.reg.axioms = appendUniq(x.reg.axioms, "(assert (= (select "+init+" 0) ((as const (Array "+ks+" Bool)) false)))")
+		}
+		if name == "MC" {
+			x.reg.axioms = appendUniq(x.reg.axioms, "(assert (= (select MC_0 0) 0))")
+			// cardinalities are never negative
+			x.reg.axioms = appendUniq(x.reg.axioms, "(assert (forall ((r Int)) (! (>= (select MC_0 r) 0) :pattern ((select MC_0 r)))))")
+		}
+	}
 	st.heap[name] = init
 	return init
 }
@@ -527,9 +539,18 @@ func (x *Exec) frameCheck(st *State, fr *Frame, ref string, in ssa.Instruction) 
 func (x *Exec) allowed(ref, entryAlloc string, mods []string) string {
 	parts := []string{app(">=", ref, entryAlloc)}
 	for _, m := range mods {
-		parts = append(parts, eq(ref, m))
+		parts = append(parts, modMatch(ref, m))
 	}
 	return or(parts...)
+}
+
+// modMatch: does object ref belong to the modifies entry m (a reference term, or a predicate
+// encoded as "@PRED@" + body with %R% standing for the object)?
+func modMatch(ref, m string) string {
+	if strings.HasPrefix(m, "@PRED@") {
+		return strings.ReplaceAll(m[6:], "%R%", ref)
+	}
+	return eq(ref, m)
 }
 
 func funcKey(fn *ssa.Function) string {
